@@ -568,6 +568,66 @@ fn chain_unwrap() -> bool {
     ok
 }
 
+/// C13 (F9): the CSV backend must not panic a chain thread (and through the poisoned trace lock the thread
+/// calling `wait_timeout`) for any `CsvConfig`: `with_precision` accepts every usize, core::fmt panics
+/// ("Formatting argument out of range") for a run-time precision above u16::MAX.
+fn csv_precision(precisions: &[usize]) -> bool {
+    use nuts_rs::{CsvConfig, Sampler, SamplerWaitResult};
+    use std::time::{Duration, Instant};
+    let mut ok = true;
+    for &prec in precisions {
+        let dir = std::env::temp_dir().join(format!("nuts_replay_csv_{}_{}", std::process::id(), prec));
+        let _ = std::fs::remove_dir_all(&dir);
+        let d2 = dir.clone();
+        let r = std::panic::catch_unwind(std::panic::AssertUnwindSafe(move || {
+            let stats = Arc::new(ChainFaultStats {
+                math_calls: AtomicUsize::new(0),
+                init_calls: AtomicUsize::new(0),
+                counters: std::sync::Mutex::new(vec![]),
+            });
+            let settings = DiagNutsSettings { num_tune: 5, num_draws: 10, num_chains: 1, seed: 123, ..Default::default() };
+            let model = ChainFaultModel { dim: 3, fail_at: usize::MAX, faulty: vec![], stats };
+            let mut sampler = match Sampler::new(model, settings, CsvConfig::new(&d2).with_precision(prec), 1, None) {
+                Ok(s) => s,
+                Err(e) => return format!("err: Sampler::new: {e:#}"),
+            };
+            let deadline = Instant::now() + Duration::from_secs(60);
+            loop {
+                match sampler.wait_timeout(Duration::from_millis(200)) {
+                    SamplerWaitResult::Trace(_) => return "trace".to_string(),
+                    SamplerWaitResult::Err(e, _) => return format!("err: {e:#}"),
+                    SamplerWaitResult::Timeout(s) => {
+                        if Instant::now() > deadline {
+                            return "hang".to_string();
+                        }
+                        sampler = s;
+                    }
+                }
+            }
+        }));
+        let _ = std::fs::remove_dir_all(&dir);
+        match r {
+            Err(_) => {
+                println!("REPLAY csv_precision FAIL precision={prec}: the thread calling wait_timeout PANICKED (formatting panic in the CSV backend not surfaced as Err)");
+                ok = false;
+            }
+            Ok(s) if s == "hang" => {
+                println!("REPLAY csv_precision FAIL precision={prec}: no result after 60 s");
+                ok = false;
+            }
+            Ok(s) => {
+                if std::env::var("REPLAY_VERBOSE").is_ok() {
+                    eprintln!("precision={prec}: {s}");
+                }
+            }
+        }
+    }
+    if ok {
+        println!("REPLAY csv_precision PASS precisions {:?}: trace or Err, no panic", precisions);
+    }
+    ok
+}
+
 fn main() {
     let args: Vec<String> = std::env::args().collect();
     let cmd = args.get(1).map(|s| s.as_str()).unwrap_or("");
@@ -603,6 +663,10 @@ fn main() {
             hashmap_string(&cases)
         }
         "chain_unwrap" => chain_unwrap(),
+        "csv_precision" => {
+            let ps: Vec<usize> = args[2.min(args.len())..].iter().filter_map(|s| s.parse().ok()).collect();
+            csv_precision(if ps.is_empty() { &[6, 65_535, 65_536, 1_000_000] } else { &ps })
+        }
         _ => {
             eprintln!("usage: nuts-replay tuning_flag <nuts|lowrank|mclmc> [num_tune..] | fatal_in_init [k] | faults_in_draws [k]");
             std::process::exit(2);
